@@ -394,8 +394,80 @@ def check_combination(ctx, case_seed):
         V(ctx, 'combination-flattening', 'nested Combinations are not flattened in order', w, rp)
 
 
+THREADS_SRC = '''
+import threading, inspect
+from sigtools import wrappers, specifiers, signatures, modifiers
+entered = threading.Event()
+release = threading.Event()
+def inner(x, y): return (x, y)
+@specifiers.forger_function
+@modifiers.kwoargs('obj')
+def slow_in_worker(obj):
+    # a user-supplied forger somewhere down the chain; in the worker thread it takes its time
+    if threading.current_thread().name == 'vf-worker':
+        entered.set()
+        release.wait(10)
+    return signatures.signature(inner)
+@wrappers.decorator
+def deco(func, tag, *args, **kwargs): return (tag, func(*args, **kwargs))
+@wrappers.wrapper_decorator
+def wdeco(func, tag, *args, **kwargs): return (tag, func(*args, **kwargs))
+@slow_in_worker()
+def f1(*args, **kwargs): return inner(*args, **kwargs)
+@slow_in_worker()
+def f2(*args, **kwargs): return inner(*args, **kwargs)
+w1 = deco(f1)
+w2 = wdeco(f2)
+'''
+
+
+def check_while_another_thread_computes(ctx):
+    """inspect.signature / sigtools.signature of a decorated object give their usual answer also while
+    another thread is in the middle of computing the signature of the very same object (parked inside
+    a user-supplied forger down the chain).  Deterministic."""
+    import threading
+    import sigtools
+    for name in ('w1', 'w2'):
+        g = sigs.compile_module(THREADS_SRC, tag='vwrapthreads')
+        obj = g[name]
+        want = {'inspect': str(inspect.signature(obj)), 'sigtools': str(sigtools.signature(obj))}
+        result = {}
+        def other():
+            try:
+                result['a'] = str(inspect.signature(obj))
+            except Exception as e:
+                result['a'] = 'raised %s' % type(e).__name__
+        t = threading.Thread(target=other, name='vf-worker')
+        t.start()
+        try:
+            if not g['entered'].wait(10):
+                ctx.inconclusive.append('C13 threads: the worker never reached the forger')
+                return
+            for label, retr in (('inspect', inspect.signature), ('sigtools', sigtools.signature)):
+                ctx.evaluated()
+                ctx.count('C13.retrieved_while_another_thread_computes')
+                try:
+                    got = str(retr(obj))
+                except Exception as e:
+                    got = 'raised %s' % type(e).__name__
+                ctx.nontrivial(('threads', name, label))
+                if got != want[label]:
+                    V(ctx, 'signature-differs-while-another-thread-computes',
+                      '%s.signature of a %s object differs from its usual answer while another thread is computing the signature of the same object' % (
+                          label, 'wrappers.decorator' if name == 'w1' else 'wrapper_decorator'),
+                      {'object': name, 'usual': want[label], 'now': got}, dict(workload='wrap-threads'))
+        finally:
+            g['release'].set()
+            t.join(20)
+        if result.get('a') != want['inspect']:
+            V(ctx, 'signature-differs-while-another-thread-computes', 'the parked thread itself got another answer',
+              {'object': name, 'usual': want['inspect'], 'now': result.get('a')}, dict(workload='wrap-threads'))
+
+
 def run(ctx):
     rnd = ctx.rng('wrap')
+    if ctx.shard == 0:
+        check_while_another_thread_computes(ctx)
     n = {'quick': 700, 'thorough': 100000}[ctx.tier] // ctx.nshards
     for i in range(n):
         if ctx.out_of_time('decorated stacks'):
@@ -406,6 +478,8 @@ def run(ctx):
 
 
 def replay(ctx, rec):
+    if rec.get('workload') == 'wrap-threads':
+        return check_while_another_thread_computes(ctx)
     if rec['workload'] == 'combination':
         check_combination(ctx, rec['case_seed'])
     else:
